@@ -6,6 +6,9 @@
 #[macro_use]
 extern crate uom;
 
+#[cfg(feature = "wide-types")]
+pub mod tok;
+
 pub mod gen {
     include!("gen/si_gen.rs");
 }
